@@ -18,6 +18,7 @@ RULE = (
     "chunked-receive mode the file at event.dataset_path reads back equal; non-trivial = the dataset has a sequence, private or "
     "empty element, or a non-default transfer syntax / chunked mode is used; distinct = distinct (dataset seed, transfer "
     "syntax, max PDU, mode, operation) tuples (inputs dominate)"
+    " In chunked-send mode the file may be encoded in another uncompressed syntax than the one accepted: it must then be refused, nothing sent."
 )
 TS = [C.IVLE, C.EVLE, C.EVBE, C.DEFL]
 
